@@ -55,7 +55,9 @@ def gen_session(rnd, cls):
         typ("\\\n".join(lines))
         for _ in range(rnd.randrange(0, 5)):
             keys.append(rnd.choice([b"\x02", b"\x01", b"\x05", b"\x10", b"\x0e", b"\x1b<", b"z", b"\x7f"]))
-    return {"cls": cls, "width": width, "height": 24, "prompt": prompt, "keys": keys, "multiline": cls == "multiline"}
+    # rows already used above the prompt (the input area does not start on the top row of the screen)
+    pre = rnd.choice([0, 0, 2, 5, 9])
+    return {"cls": cls, "width": width, "height": 24, "prompt": prompt, "keys": keys, "multiline": cls == "multiline", "pre": pre}
 
 
 def known_class(f):
@@ -105,7 +107,7 @@ def check(rep, tier, seed):
     n = 150 if tier == "quick" else 4000
     classes = ["fill", "ascii", "ghost", "wide", "comb", "tabs", "multiline", "fill", "ascii", "ghost"]
     sess = [gen_session(rnd, classes[i % len(classes)]) for i in range(n)]
-    jobs = [{"scenario": {"calls": 1, "prompt": s["prompt"], "multiline": s["multiline"]}, "chunks": s["keys"], "cols": s["width"], "rows": s["height"],
+    jobs = [{"scenario": {"calls": 1, "prompt": s["prompt"], "multiline": s["multiline"], "preamble": s["pre"]}, "chunks": s["keys"], "cols": s["width"], "rows": s["height"],
              "keep_output": True, "inputrc": "set convert-meta off\n", "step_timeout": 8.0} for s in sess]
     res = P.run_many(jobs)
     # the oracle terminal: everything written, step by step, through Term.v
@@ -128,11 +130,13 @@ def check(rep, tier, seed):
             buf = "".join(chr(x) for x in snap["line"])
             f = {"session": si, "step": k, "width": s["width"], "height": s["height"], "prompt": s["prompt"],
                  "pwidth": sum(D.rune_width(ch) for ch in s["prompt"]), "buffer": buf, "cpos": snap["cpos"], "term": st,
-                 "vt": {"rows": D.vt_rows(w["screen"]), "cursor": list(w["cursor"])}, "cls": s["cls"],
+                 "vt": {"rows": D.vt_rows(w["screen"]), "cursor": list(w["cursor"])}, "cls": s["cls"], "pre": s["pre"],
                  "keys_so_far": [list(x) for x in s["keys"][:k]]}
             frames.append(f)
-            items.append((s["height"], s["width"], s["prompt"], buf, snap["cpos"]))
+            items.append((s["height"] - s["pre"], s["width"], s["prompt"], buf, snap["cpos"]))
     exp = D.layouts(items)
+    for f, e in zip(frames, exp):
+        e["rows"], e["r"] = [""] * f["pre"] + e["rows"], e["r"] + f["pre"]
     nontriv = set()
     known = {}
     for f, e in zip(frames, exp):
@@ -183,9 +187,9 @@ def check(rep, tier, seed):
             if kid:
                 known[kid] = known.get(kid, 0) + 1
                 continue
-            bad.append({"width": f["width"], "prompt": f["prompt"], "buffer": f["buffer"], "cursor": f["cpos"], "class": f["cls"],
+            bad.append({"width": f["width"], "prompt": f["prompt"], "buffer": f["buffer"], "cursor": f["cpos"], "class": f["cls"], "rows_above_the_prompt": f["pre"],
                         "keys_before_this_frame": f["keys_so_far"][-12:], "failure": fails,
-                        "screen": st["rows"][:5], "expected": e["rows"][:5]})
+                        "screen": st["rows"][:f["pre"] + 5], "expected": e["rows"][:f["pre"] + 5]})
     for kid, cnt in sorted(known.items()):
         rep.known_finding(kid, KNOWN[kid] + " (%d frames)" % cnt)
     rep.coverage.update({
@@ -194,7 +198,7 @@ def check(rep, tier, seed):
         "rule": "editing sessions typed into the real Readline over a pty, one key per read, a frame judged at every input wait: buffers "
                 "of ASCII text with lengths around multiples of the width, CJK double-width, combining sequences, tabs and embedded "
                 "newlines (through quoted-insert), cursor moved to any position, longer-then-shorter contents (kills, rubouts, yank), on "
-                "terminals 8-120 columns wide with prompts of 0-8 columns; everything the library writes is replayed through the "
+                "terminals 8-120 columns wide with prompts of 0-8 columns, the prompt starting on row 0, 2, 5 or 9 of the screen; everything the library writes is replayed through the "
                 "extracted Term.v (cross-checked against the live emulator that answers the cursor queries); oracle: the rows of the "
                 "screen equal the reference layout (prompt + buffer written character by character on Term.v, nothing else anywhere) and "
                 "the terminal cursor is on the cell of the buffer cursor, not in the pending-wrap state, visible; non-trivial = distinct "
